@@ -8,4 +8,6 @@ CONSTANTS
 SPECIFICATION Spec
 INVARIANT Emit
 INVARIANT DevRows
+INVARIANT CodeLaws
+INVARIANT TextLaws
 CHECK_DEADLOCK FALSE
